@@ -758,3 +758,96 @@ Theorem c05_glsl_switch_cases_are_generic_cases : forall P fu labels body rest s
 Proof. exact glsl_cases_is_case_step. Qed.
 Print Assumptions c05_glsl_while_true_is_generic_loop.
 
+
+(* ==== two-direction forms of the encoding theorems above (coq/Target/ContinueForwardConv.v, SwitchFormsConv.v):
+   the CONVERSE of every `_partial` statement is proved too - a terminating run of the emitted form comes from a
+   terminating run of the IR form with the related result - so the emitted form terminates with a result exactly
+   when the IR form does (it cannot terminate where the source diverges or fails).  Same side conditions. *)
+Require Import Naga.Target.ContinueForwardConv Naga.Target.SwitchFormsConv Naga.Target.ExamplesConv.
+
+(* continue forwarding through should_continue, switch inside a loop: emitted form <-> IR switch *)
+Theorem c05_continue_forward_equiv :
+  forall (state R : Type) (F : lens state bool) (sel : state -> result (option nat))
+         (cs : list (list (Structured.stmt state R) * bool)) (st : state) (r' : Structured.outcome R * state),
+  mono_c cs -> indep_c F cs -> indep_fn F sel ->
+  (evals_b (fwd_switch F sel cs) st r' <->
+   exists (o : Structured.outcome R) (s : state),
+     evals_s (Switch sel cs) st (o, s) /\ r' = (o, lset F (is_cont o) s)).
+Proof. exact continue_forward_switch_iff. Qed.
+Print Assumptions c05_continue_forward_equiv.
+
+(* the converse alone, in fuel form: ANY terminating run of the emitted form, at any fuel *)
+Theorem c05_continue_forward_converse :
+  forall (state R : Type) (F : lens state bool) (n : nat) (sel : state -> result (option nat))
+         (cs : list (list (Structured.stmt state R) * bool)) (st : state) (r' : Structured.outcome R * state),
+  mono_c cs -> indep_c F cs -> indep_fn F sel ->
+  run_block n (fwd_switch F sel cs) st = Done r' ->
+  exists (o : Structured.outcome R) (s : state),
+    evals_s (Switch sel cs) st (o, s) /\ r' = (o, lset F (is_cont o) s).
+Proof. exact continue_forward_switch_conv. Qed.
+Print Assumptions c05_continue_forward_converse.
+
+(* the do { } while(false) form of a body with continues <-> the body (Break / Continue / Return classified) *)
+Theorem c05_continue_forward_do_while :
+  forall (state R : Type) (F : lens state bool) (body : list (Structured.stmt state R)) (st : state)
+         (r' : Structured.outcome R * state),
+  mono_b body -> indep_b F body ->
+  (evals_b (fwd_once F body) st r' <->
+   exists (o1 : Structured.outcome R) (s : state),
+     evals_b body st (o1, s) /\ r' = (unbreak_o o1, lset F (is_cont o1) s)).
+Proof. exact continue_forward_once_iff. Qed.
+Print Assumptions c05_continue_forward_do_while.
+
+(* ... and against the IR single-body SWITCH itself (empty fall-through labels, then the body), selector selecting a
+   label of the switch: the should_continue / do-while form <-> the IR switch *)
+Theorem c05_continue_forward_single_body_switch :
+  forall (state R : Type) (F : lens state bool) (sel : state -> result (option nat))
+         (pre : list (list (Structured.stmt state R) * bool)) (body : list (Structured.stmt state R)) (ft : bool)
+         (st : state) (r' : Structured.outcome R * state),
+  empty_labels pre -> selects sel pre st -> mono_b body -> indep_b F body ->
+  (evals_b (fwd_once F body) st r' <->
+   exists (o : Structured.outcome R) (s : state),
+     evals_s (Switch sel (pre ++ (body, ft) :: nil)%list) st (o, s) /\ r' = (o, lset F (is_cont o) s)).
+Proof. exact continue_forward_single_body_iff. Qed.
+Print Assumptions c05_continue_forward_single_body_switch.
+
+(* single-body switch without an escaping continue <-> do { body } while(false) *)
+Theorem c05_single_body_switch :
+  forall (state R : Type) (sel : state -> result (option nat))
+         (pre : list (list (Structured.stmt state R) * bool)) (body : list (Structured.stmt state R)) (ft : bool)
+         (st : state) (r : Structured.outcome R * state),
+  empty_labels pre -> selects sel pre st -> may_cont_b body = false ->
+  (evals_s (Switch sel (pre ++ (body, ft) :: nil)%list) st r <-> evals_s (DoOnce body) st r).
+Proof. exact single_body_once_iff. Qed.
+Print Assumptions c05_single_body_switch.
+
+Example c05_single_body_nonvacuous :
+  empty_labels ex_pre /\ (forall st, selects ex_sel ex_pre st) /\ mono_b ex_wbody /\ indep_b flagL ex_wbody /\
+  may_cont_b ex_plain_single = false /\
+  run_stmt 10 (Switch ex_sel (ex_pre ++ (ex_wbody, false) :: nil)%list) (mkx 1 0 false (0, 0)%Z)
+    = Done (Structured.OContinue, mkx 1 0 false (0, 0)%Z) /\
+  run_block 12 (fwd_once flagL ex_wbody) (mkx 1 0 true (0, 0)%Z) = Done (Structured.OContinue, mkx 1 0 true (0, 0)%Z) /\
+  run_stmt 10 (Switch ex_sel (ex_pre ++ (ex_plain_single, false) :: nil)%list) (mkx 2 5 true (0, 0)%Z)
+    = Done (Structured.ONormal, mkx 2 7 true (0, 0)%Z) /\
+  run_stmt 10 (DoOnce ex_plain_single) (mkx 2 5 true (0, 0)%Z) = Done (Structured.ONormal, mkx 2 7 true (0, 0)%Z).
+Proof.
+  exact (conj ex_empty_labels (conj ex_selects (conj ex_mono_wbody (conj ex_indep_wbody (conj ex_plain_single_no_continue
+        (conj ex_single_switch_continue_run (conj ex_fwd_once_continue_run
+        (conj ex_single_switch_plain_run ex_do_once_plain_run)))))))).
+Qed.
+
+(* inserted `break;` after every non-fall-through case that does not end in a terminator: emitted switch <-> IR switch,
+   same result *)
+Theorem c05_switch_case_breaks :
+  forall (state R : Type) (sel : state -> result (option nat))
+         (cs : list (list (Structured.stmt state R) * bool)) (st : state) (r : Structured.outcome R * state),
+  mono_c cs -> (evals_s (Switch sel (enc_cases cs)) st r <-> evals_s (Switch sel cs) st r).
+Proof. exact case_breaks_iff. Qed.
+Print Assumptions c05_switch_case_breaks.
+
+Example c05_switch_case_breaks_nonvacuous :
+  mono_c ex_cases /\
+  enc_cases ex_cases = ((Structured.Continue :: nil, true) :: (a_store :: Structured.Break :: nil, true) :: nil)%list /\
+  run_stmt 10 (Switch ex_sel ex_cases) (mkx 2 5 true (0, 0)%Z) = Done (Structured.ONormal, mkx 2 7 true (0, 0)%Z) /\
+  run_stmt 10 (Switch ex_sel (enc_cases ex_cases)) (mkx 2 5 true (0, 0)%Z) = Done (Structured.ONormal, mkx 2 7 true (0, 0)%Z).
+Proof. exact (conj ex_mono_cases (conj ex_enc_cases (conj ex_case_breaks_ir_run ex_case_breaks_enc_run))). Qed.
